@@ -543,7 +543,7 @@ func (d Driver) Run(c *core.Ctx) error {
 	// 1. model level: two independent exact winding computations agree, parity of crossings, far field, simple
 	// contours (run concurrently with the generation jobs below)
 	var jobs []tlc.Opts
-	mc1 := tlc.Opts{Module: "Query", Config: cfg(3, 4, 1, "polyrand", `{"L"}`, c.Pick(60, 200), true), Seed: c.Seed, Coverage: c.Thorough(), Workers: 4, HeapGB: 3, Timeout: 30 * time.Minute}
+	mc1 := tlc.Opts{Module: "Query", Config: cfg(3, 4, 1, "polyrand", `{"L"}`, c.Pick(60, 200), true), Seed: c.Seed, Workers: 4, HeapGB: 3, Timeout: 30 * time.Minute}
 	mc2 := tlc.Opts{Module: "Query", Config: cfg(c.Pick(4, 10), 3, 1, "curves", `{"L","A","Q"}`, c.Pick(30, 40), true), Seed: c.Seed, Timeout: 30 * time.Minute, Workers: 4, HeapGB: 3}
 
 	// 2. spec -> code (the generation runs are independent: three TLC processes at a time)
